@@ -37,6 +37,7 @@ Step(e) ==
       [] e.e = "build"      -> Distinct(e.list) /\ BuildHeap(SeqToSet(e.list))
       [] e.e = "update_all" -> UpdateAll
       [] e.e = "clear"      -> Clear
+      [] e.e = "reserve"    -> UNCHANGED vars       \* reserve(n): contents untouched (capacity is a hint; the addressable heap only grows it together with its handle table)
       [] OTHER              -> FALSE
 
 TInit == Init /\ l = 1
